@@ -9,7 +9,7 @@
    proxies, registering and cancelling disconnect callbacks.  Every statement is for every address
    list, every first serial and every event list. *)
 From Tx Require Import Lib.Base Model.Calls Model.Connect Model.ConnectRe Spec.ConnectSpec Proofs.ConnectProofs
-  Proofs.ConnectReProofs.
+  Proofs.ConnectReProofs Model.ConnectCancel Proofs.ConnectCancelProofs.
 From Coq Require Import Permutation.
 Local Open Scope N_scope.
 
@@ -219,6 +219,81 @@ Example C09_acting_callbacks :
                   [ECalls (ETimer 8); ECalls (ETimer 9); ECalls (ETimer 11); ECalls (ETimer 12); EReg OConn 60;
                    ECalls (ELost 3)]) in
   sn_completed (snap later) = sn_completed (snap lost) /\ sn_ran (snap later) = sn_ran (snap lost).
+Proof. vm_compute. repeat split; reflexivity. Qed.
+
+(* ---- calls whose Deferred the caller has cancelled ------------------------------------------------
+
+   [run_c acts] runs histories that may also contain [CCancel i]: the caller calls .cancel() on the
+   Deferred number i that callRemote returned (Model/ConnectCancel.v).  txdbus gives that Deferred no
+   canceller, so Twisted fires it with CancelledError at once and swallows what the library delivers
+   later.  [vsnap cs] is the snapshot as the caller sees it: the cancelled Deferreds are neither
+   outstanding nor do later completions of theirs count - but sn_timers is the whole reactor. *)
+
+(* For the connection a cancellation is no event at all: the pending entry and the timeout stay where
+   they are until the reply, the timeout or the loss removes them. *)
+Theorem C09_cancel_is_a_view :
+  forall acts addr serial0 evs,
+    cs_core (run_c acts addr serial0 evs) = run_re acts addr serial0 (erase evs).
+Proof. exact core_erase. Qed.
+
+(* Every Deferred fires at most once, by a completion or by the caller's cancellation, never both. *)
+Theorem C09_deferred_fires_once_with_cancellations :
+  forall acts addr serial0 evs,
+    let cs := run_c acts addr serial0 evs in
+    NoDup (map fst (sn_completed (vsnap cs)) ++ cs_cancelled cs).
+Proof. exact fires_once. Qed.
+
+(* C09_loss_fails_all_once / C09_loss_reentrant with cancelled calls around (any assignment of actions to
+   callbacks, passive ones included; any number of cancellations anywhere in the history):
+   the statement of C09_loss_reentrant holds for what the caller sees - in particular
+   sn_timers = [] after the loss: the timeouts of cancelled calls are cancelled as well; and no entry
+   at all is left in the table.  The loss cancels nothing and un-cancels nothing.  For every
+   continuation [quiet] holds - nothing fires for a cancelled call either -, the only Deferreds that
+   can still be cancelled are those of calls issued after the loss, no Deferred is cancelled twice and a
+   cancelled one never shows a completion. *)
+Theorem C09_loss_with_cancelled_calls :
+  forall acts addr serial0 pre r post,
+    st_phase (cs_core (run_c acts addr serial0 pre)) = Ready ->
+    let b := run_c acts addr serial0 pre in
+    let a := run_c acts addr serial0 (pre ++ [CEv (ECalls (ELost r))]) in
+    let l := run_c acts addr serial0 (pre ++ CEv (ECalls (ELost r)) :: post) in
+    loss_reentrant_ok r (vsnap b)
+                        (view (cs_cancelled b) (snap (conn_phase acts (set_open (cs_core b) false) r)))
+                        (vsnap a) /\
+    pending_serials (st_calls (cs_core a)) = [] /\
+    cs_cancelled a = cs_cancelled b /\
+    quiet (vsnap a) (vsnap l) /\
+    (exists lc, cs_cancelled l = cs_cancelled a ++ lc /\
+                Forall (fun i => (sn_issued (vsnap a) <= i)%nat) lc) /\
+    NoDup (cs_cancelled l) /\
+    (forall i, In i (cs_cancelled l) -> ~ In i (map fst (sn_completed (vsnap l)))).
+Proof. exact loss_with_cancelled. Qed.
+
+(* Non-vacuity.  Two calls with deadlines (Deferreds 1, 2; serials 8, 9) and one without (3; serial 10).
+   The caller cancels 1 and 3, then (no effect) 1 again, Hello's Deferred 0 and a Deferred 7 that does not
+   exist; the reply for 3 arrives and is absorbed.  Entries and timers of the cancelled calls are still
+   there until then.  At the loss only 2 is failed for the caller; the reactor is empty, timer of the
+   cancelled call 1 included.  Later ticks and a late reply for serial 8 do nothing. *)
+Definition cancelling : list cevent :=
+  map CEv [ EEpOk; EAuthOk; hello_reply 7; ECalls (ECall CkNormal (Some 5) RsNoCheck);
+            ECalls (ECall CkNormal (Some 9) RsNoCheck); ECalls (ECall CkNormal None RsNoCheck) ] ++
+  [ CCancel 1; CCancel 3; CCancel 1; CCancel 0; CCancel 7;
+    CEv (ECalls (EReturn 10 (Msg (Some [105]) [VInt 7]))) ].
+
+Example C09_cancelled_calls :
+  let b := run_c no_actions [AUnix] 7 cancelling in
+  st_phase (cs_core b) = Ready /\ cs_cancelled b = [1; 3]%nat /\
+  pending_serials (st_calls (cs_core b)) = [8; 9] /\ sn_timers (vsnap b) = [8; 9] /\
+  sn_outstanding (vsnap b) = [2%nat] /\
+  sn_completed (vsnap b) = [(0%nat, OValue (Some (VStr [58; 49; 46; 53])))] /\
+  let a := run_c no_actions [AUnix] 7 (cancelling ++ [CEv (ECalls (ELost 2))]) in
+  sn_completed (vsnap a) = [(0%nat, OValue (Some (VStr [58; 49; 46; 53]))); (2%nat, OLost 2)] /\
+  sn_timers (vsnap a) = [] /\ pending_serials (st_calls (cs_core a)) = [] /\
+  let l := run_c no_actions [AUnix] 7
+             (cancelling ++ CEv (ECalls (ELost 2)) ::
+              [CEv (ECalls (ETimer 8)); CEv (ECalls (ETimer 9)); CCancel 2; CCancel 1;
+               CEv (ECalls (EReturn 8 (Msg (Some [105]) [VInt 7])))]) in
+  sn_completed (vsnap l) = sn_completed (vsnap a) /\ cs_cancelled l = [1; 3]%nat.
 Proof. vm_compute. repeat split; reflexivity. Qed.
 
 (* ---- the tree before the repairs (step_legacy = step_gen true true) ------------------------------ *)
